@@ -64,3 +64,31 @@ Proof.
   destruct (inner_defaultable (rs_inner rs)); [reflexivity | discriminate].
 Qed.
 Print Assumptions C13_default_satisfiable_partial.
+
+(** ** on the emitted text *)
+From PyxisModel Require Emit WholeBuild EmitReaders EmitShape EmitFinal EmitLayout EmitVftLayout.
+
+(** the emitted size check of a declared struct compares equal sizes: the literal it transmutes from is the
+    size the Reference algorithm computes for the emitted struct itself *)
+Theorem C13_emitted_size_check_holds : forall order ptr mods st0 st files p it0 gd td0,
+  WholeBuild.input_state ptr mods = Ok st0 -> NoDup (map fst mods) -> WholeBuild.collision_free (st_reg st0) ->
+  EmitFinal.keeps_work order ->
+  pyxis_resolve order ptr mods = BOk st -> Emit.write_all st = Ok files ->
+  reg_get (st_reg st0) p = Some it0 -> it_state it0 = Unresolved gd -> gi_inner gd = GIType td0 ->
+  path_parent p <> Some [] ->
+  exists parent name f items s checks td noffs sz al,
+    path_parent p = Some parent /\ path_last p = Some name /\
+    In (Emit.out_path parent, f) files /\ EmitReaders.file_items f = Some items /\
+    EmitReaders.find_struct name items = Some s /\
+    (exists pre rest post, items = pre ++ (s :: checks ++ rest) ++ post) /\
+    EmitShape.size_check_shape name sz checks /\
+    EmitLayout.emitted_struct_layout (map (EmitLayout.type_sa (st_reg st)) (map r_type (td_regions td))) s = Some (noffs, sz, al).
+Proof.
+  intros order ptr mods st0 st files p it0 gd td0 H1 H2 H3 H4 H5 H6 H7 H8 H9 H10.
+  destruct (EmitLayout.emitted_struct_whole_build order ptr mods st0 st files p it0 gd td0 H1 H2 H3 H4 H5 H6 H7 H8 H9 H10)
+    as (parent & name & it & r & td & f & pre & s & checks & rest & post & efs & noffs & Hpar & Hlast & _ & _ & _ & Hin & Hitems & Hfind & _ & Hsc & _ & Hlay).
+  cbn zeta in Hlay. destruct Hlay as (_ & _ & Hl & _).
+  exists parent, name, f, (pre ++ (s :: checks ++ rest) ++ post), s, checks, td, noffs, (rs_size r), (rs_align r).
+  repeat split; eauto.
+Qed.
+Print Assumptions C13_emitted_size_check_holds.
